@@ -354,3 +354,20 @@ func init() {
 			MapKeys: map[string]string{"reservedAmtByBidder": "keysR__", "matchRes.MatchResultByBidder": "keysM__"}},
 	)
 }
+
+func init() {
+	pay := func(name, fn, mapExpr string) Unit {
+		return Unit{Group: "Payout", Name: name, Pkg: keeperP, Recv: "Keeper", RecvLean: "Keeper", Func: fn,
+			Params: []gparam{{Go: "k", T: "Keeper"}, {Go: "ctx"}, {Go: "auction", T: "Auction"}, {Go: "mInfo", T: "MInfoG"},
+				{Go: "keys__", T: "List Acc", Oracle: true}},
+			Ret: []LT{"Err"}, EffectsOn: true,
+			Calls: map[string]callSpec{
+				"k.BeforeSellingCoinsAllocated": {Effect: "beforeSellingCoinsAllocated", Args: []int{1, 2, 3}},
+				"k.bankKeeper.InputOutputCoins": {Effect: "inputOutputCoins", Args: []int{1, 2}},
+			},
+			MapKeys: map[string]string{mapExpr: "keys__"}}
+	}
+	units = append(units,
+		pay("AllocateSellingCoin", "AllocateSellingCoin", "mInfo.AllocationMap"),
+		pay("RefundPayingCoin", "RefundPayingCoin", "mInfo.RefundMap"))
+}
